@@ -116,7 +116,9 @@ Definition inst_ok (e : event) (o : obs) : bool :=
   match e with
   | ETrack p =>
       if pmeta p then N.eqb (o_ret o) 0
-      else if premote p then N.eqb (o_ret o) 0 && N.eqb (o_st o (pcid p)) 256
+      else if premote p then   (* best effort: the local unpin is requested *)
+        N.eqb (o_ret o) 0 && N.eqb (o_st o (pcid p)) 256
+        && existsb (fun q => let '(c', k, _, _) := q in N.eqb c' (pcid p) && N.eqb k 1) (o_inflight o)
       else if N.eqb (o_ret o) 1 then N.eqb (o_st o (pcid p)) 4
       else N.eqb (o_ret o) 0 && (N.eqb (o_st o (pcid p)) 512 || N.eqb (o_st o (pcid p)) 32)
   | EUntrack c =>
